@@ -31,4 +31,5 @@ def main (args : List String) : IO UInt32 := do
   | ["parse"] => lineLoop stdin stdout Oratio.Driver.RiddleParseD.step; return 0
   | ["net"] => stateLoop stdin stdout Oratio.Driver.NetD.step none; return 0
   | ["sweep"] => lineLoop stdin stdout Oratio.Driver.SweepD.step; return 0
+  | ["types"] => stateLoop stdin stdout Oratio.Driver.TypesD.step {}; return 0
   | _ => IO.eprintln "usage: oratio_model <arith|...>"; return 2
